@@ -183,7 +183,8 @@ func (pt *Point) Set(key string, value any, dtype ast.DType) error {
 		}
 	case PtTag:
 		if dtype == ast.Void || dtype == ast.Invalid {
-			delete(pt.Tags, key)
+			// the tag is removed together with its index entry
+			pt.Delete(key)
 			return nil
 		}
 
